@@ -38,11 +38,27 @@ def _objs():
     return U
 
 
+_ROUTE = [0]
+
+
 def mk_sys(U, s3):
+    # by keyword, by position (documented order: space, time, quantity), or mixed - every route builds the same object
+    _ROUTE[0] += 1
+    k = _ROUTE[0] % 3
+    if k == 0:
+        return U.UnitsSystem(s3[0], s3[1], s3[2])
+    if k == 1:
+        return U.UnitsSystem(s3[0], quantity=s3[2], time=s3[1])
     return U.UnitsSystem(space=s3[0], time=s3[1], quantity=s3[2])
 
 
 def mk_dim(U, d3):
+    _ROUTE[0] += 1
+    k = _ROUTE[0] % 3
+    if k == 0:
+        return U.UnitsDimensions(d3[0], d3[1], d3[2])
+    if k == 1:
+        return U.UnitsDimensions(d3[0], quantity=d3[2], time=d3[1])
     return U.UnitsDimensions(space=d3[0], time=d3[1], quantity=d3[2])
 
 
